@@ -46,6 +46,11 @@ func c12Placements(e ast.Node, t gen.Ty, r *core.Rng) []placement {
 	add("argument", true, true, ast.Assign{Name: "vid", Value: ast.FuncLit{Params: []string{"vx"}, Body: nm("vx")}}, call("vid", e))
 	add("array-element", true, true, ast.Index{X: ast.ArrayLit{Elems: []ast.Node{e}}, I: ast.IntLit{V: 0}})
 	add("array-element-after-constants", true, true, ast.Index{X: ast.ArrayLit{Elems: []ast.Node{ast.IntLit{V: 7}, ast.StrLit{V: "c"}, e}}, I: ast.IntLit{V: 2}})
+	if t.K == gen.TInt {
+		// index and slice-bound positions (value not observable, output and error class are)
+		add("index-position", false, true, ast.Index{X: ast.ArrayLit{Elems: []ast.Node{ast.IntLit{V: 7}, ast.IntLit{V: 8}}}, I: ast.Binary{Op: "*", L: e, R: ast.IntLit{V: 0}}})
+		add("slice-bound-position", false, true, ast.Slice{X: ast.StrLit{V: "abc"}, I: ast.Binary{Op: "*", L: e, R: ast.IntLit{V: 0}}, J: ast.IntLit{V: 2}})
+	}
 	add("if-true-arm", true, true, ast.If{Cond: ast.BoolLit{V: true}, Then: e, Else: ast.IntLit{V: 0}})
 	add("if-no-else", true, true, ast.If{Cond: ast.BoolLit{V: true}, Then: e})
 	add("if-else-arm-negated", true, true, ast.If{Cond: ast.Unary{Op: "!", X: ast.BoolLit{V: true}}, Then: ast.IntLit{V: 0}, Else: e})
@@ -498,7 +503,7 @@ func init() {
 			{Name: "rewrite", Count: countFn(4000, 200000), Run: c12Rewrites},
 			{Name: "cond", Count: func(string) int { return 13 * 5 * 8 * 3 }, Run: c12Cond},
 		},
-		Floors: []core.Floor{{Key: "placements_run", Quick: 60000, Thor: 8000000}, {Key: "tag:placement:", Quick: 25, Thor: 25}, {Key: "tag:rewrite:", Quick: 5, Thor: 5}, {Key: "tag:cond:", Quick: 20, Thor: 20}, {Key: "nontrivial", Quick: 3000, Thor: 300000}},
+		Floors: []core.Floor{{Key: "placements_run", Quick: 60000, Thor: 8000000}, {Key: "tag:placement:", Quick: 30, Thor: 30}, {Key: "tag:rewrite:", Quick: 5, Thor: 5}, {Key: "tag:cond:", Quick: 20, Thor: 20}, {Key: "nontrivial", Quick: 3000, Thor: 300000}},
 	})
 	core.CaseSeconds["C12/expr"] = 0.5
 }
